@@ -24,6 +24,7 @@ Line protocol for C14 (stateless: one case per line; see harness/c14.py).
   lhsc <n> | rows                        -> matrix
   otff <levels> | rows                   -> matrix
   untr <vars> | rows                     -> matrix  (per-variable form `untransformByVar`, flattened)
+  firstocc | rows                        -> matrix  (database keys of the given samples)
 var = name:f|i:lb:ub:val (C02 syntax). Matrices are printed `r1;r2;...` (`[]` when empty).
 -/
 
@@ -175,6 +176,10 @@ def answer (line : String) : String :=
       match parseNatList? levels, parseRows rest with
       | some ls, some (some m) => showMatrix (m.map (otFullfactFill ls))
       | _, _ => "bad-op"
+    | ["firstocc"] =>
+      match parseRows rest with
+      | some (some m) => showMatrix (firstOcc m)
+      | _ => "bad-op"
     | ["untr", vars] =>
       match parseVars? vars, parseRows rest with
       | some vs, some (some m) =>
